@@ -143,6 +143,22 @@ def gen(ctx, n):
             ops.append(dict(op='read', s=1))
             ops.append(dict(op='read', s=1))
         out.append(dict(nics=[NIC], ops=ops))
+    # fragmented datagrams of several senders that use the SAME IP identification, interleaved fragment by fragment: each
+    # datagram comes out whole, unmerged, once, with its true sender (sockd op `fragmix`)
+    srcs = ['10.0.0.9', '10.0.0.8', '10.0.1.9', '11.0.0.9', '10.0.0.137']
+    for i in range(max(6, n // 12)):
+        ipid = rng.randrange(1, 65535)
+        dgs = []
+        for k, src in enumerate(rng.sample(srcs, rng.choice([2, 2, 3]))):
+            nb = rng.choice([24, 41, 64, 100, 333])
+            tot = 8 + nb
+            cuts = sorted(set(8 * rng.randrange(1, max(2, (tot + 7) // 8)) for _ in range(rng.choice([1, 2, 3]))))
+            dgs.append(dict(src=src, sport=7 + (k if i % 2 else 0), dst='10.0.0.1', dport=5000, ipid=ipid, n=nb, seed=rng.randrange(1 << 24),
+                            cuts=[c for c in cuts if 0 < c < tot] or [8]))
+        order = [[k, j] for k, d in enumerate(dgs) for j in range(len(d['cuts']) + 1)]
+        rng.shuffle(order)
+        out.append(dict(nics=[NIC], ops=[dict(op='udp', s=0, v=4), dict(op='bind', s=0, addr='', port=5000),
+                                        dict(op='fragmix', dgrams=dgs, order=order), dict(op='readall'), dict(op='readall')]))
     # always: writes around the 16-bit length limits (F3 territory), v4 and v6
     ops = [dict(op='udp', s=0, v=4), dict(op='bind', s=0, addr='', port=5000), dict(op='udp', s=1, v=6), dict(op='bind', s=1, addr='', port=5001)]
     for nbytes in (65506, 65507, 65508, 65535, 65536):
